@@ -71,11 +71,32 @@ def build_hand(c):
             cell = tuple(int(rng.integers(0, n)) for n in sh[1:])
             keep = np.zeros_like(se); keep[(slice(None),) + cell] = 1.0
             se = np.maximum(se, 1.0 / 2048.0 * float(c.get("sigma_scale", 1.0))) * keep
+        if c.get("full_sigma"):      # 9-component (non-symmetric) conductivity tensors: dyadic diagonals, small off-diagonals
+            def sig9(unit):
+                t = np.zeros((9,) + sh[1:])
+                offv = np.array([0.0, 0.0, 0.25, -0.25, 0.125])
+                for r in range(3):
+                    for q in range(3):
+                        t[3 * r + q] = (rng.integers(1, 4, size=sh[1:]) if r == q else offv[rng.integers(0, 5, size=sh[1:])]) * unit
+                return t
+            se, sm = sig9(1.0 / 2048.0), sig9(64.0)
         if c["sigma"] in (True, "E", "EH"):
             arrays = arrays.aset("electric_conductivity", jnp.asarray(se))
         if c["sigma"] in ("H", "EH"):
             arrays = arrays.aset("magnetic_conductivity", jnp.asarray(sm))
     return oc, arrays, cfg
+
+def as9(a, sh):
+    """row-major 9-component view of a 1 / 3 / 9 component material array (what expand_to_3x3 produces)"""
+    a = np.asarray(a, dtype=np.float64)
+    out = np.zeros((9,) + tuple(sh))
+    if a.ndim == 4 and a.shape[0] == 9:
+        return a
+    d = np.broadcast_to(a, (3,) + tuple(sh)) if a.ndim == 4 else np.broadcast_to(a.reshape((1, 1, 1, 1)), (3,) + tuple(sh))
+    for r in range(3):
+        out[4 * r] = d[r]
+    return out
+
 
 def bc3(a, sh):
     a = np.asarray(a)
@@ -111,7 +132,9 @@ def describe(oc, arrays, cfg):
             "sigH": fl(bc3(arrays.magnetic_conductivity, sh)) if arrays.magnetic_conductivity is not None else None,
             "cplx": bool(jnp.iscomplexobj(arrays.fields.E)),
             "ieps9": fl(np.asarray(arrays.inv_permittivities)) if np.ndim(arrays.inv_permittivities) == 4 and np.shape(arrays.inv_permittivities)[0] == 9 else None,
-            "imu9": fl(np.asarray(arrays.inv_permeabilities)) if np.ndim(arrays.inv_permeabilities) == 4 and np.shape(arrays.inv_permeabilities)[0] == 9 else None}
+            "imu9": fl(np.asarray(arrays.inv_permeabilities)) if np.ndim(arrays.inv_permeabilities) == 4 and np.shape(arrays.inv_permeabilities)[0] == 9 else None,
+            "sigE9": fl(as9(arrays.electric_conductivity, sh)) if arrays.electric_conductivity is not None else None,
+            "sigH9": fl(as9(arrays.magnetic_conductivity, sh)) if arrays.magnetic_conductivity is not None else None}
 
 def snap(st):
     return {"t": int(st[0]), "E": fl(st[1].fields.E), "H": fl(st[1].fields.H)}
